@@ -123,10 +123,14 @@ func rndFilter(r *rand.Rand) comet.Filter {
 		case 3:
 			return comet.Lte(field, rndOperand(r, field))
 		default:
-			if r.Intn(3) == 0 {
-				return comet.Between(field, rndOperand(r, field), rndOperand(r, field))
+			lo, hi := rndOperand(r, field), rndOperand(r, field)
+			if r.Intn(3) != 0 && numAsFloat(lo) > numAsFloat(hi) {
+				lo, hi = hi, lo // mostly proper ranges (an inverted one selects nothing)
 			}
-			return comet.Range(field, rndOperand(r, field), rndOperand(r, field))
+			if r.Intn(3) == 0 {
+				return comet.Between(field, lo, hi)
+			}
+			return comet.Range(field, lo, hi)
 		}
 	}
 	n := 1 + r.Intn(3)
@@ -424,4 +428,16 @@ func genC04(r *rand.Rand, t *Trace, thorough bool) {
 		res = bs.CompareValue(0, ops[opi], a, b, nil)
 		t.Emit(NewCase(401).N(opi+1).I(v).I(a).I(b).B(res.Contains(7)), "bsi."+[]string{"lt", "le", "eq", "ge", "gt", "range"}[opi])
 	}
+}
+
+func numAsFloat(v interface{}) float64 {
+	switch x := v.(type) {
+	case int:
+		return float64(x)
+	case int64:
+		return float64(x)
+	case float64:
+		return x
+	}
+	return 0
 }
